@@ -6,6 +6,7 @@ use crate::verdict::{self, Meta};
 use std::sync::Arc;
 use std::time::Instant;
 
+pub mod c05;
 pub mod c13;
 pub mod c14;
 pub mod c20;
@@ -69,6 +70,7 @@ pub struct Check {
 
 pub fn get(id: &str, tier: Tier) -> Option<Check> {
     Some(match id {
+        "C05" => c05::check(tier),
         "C13" => c13::check(tier),
         "C14" => c14::check(tier),
         "C20" => c20::check(tier),
@@ -76,7 +78,7 @@ pub fn get(id: &str, tier: Tier) -> Option<Check> {
     })
 }
 
-pub const ALL: &[&str] = &["C13", "C14", "C20"];
+pub const ALL: &[&str] = &["C05", "C13", "C14", "C20"];
 
 /// Stream-local seed for scenario `idx`.
 pub fn sseed(ctx: &Ctx, stream: &str, idx: u64) -> u64 {
